@@ -463,6 +463,9 @@ def normalise(fn, world=None, modname=None, cls=None, primitives=(),
             fn = acopy(fn)
         fn = hoist_suspensions(fn)
         ast.fix_missing_locations(fn)
+        if any(isinstance(n, ast.Attribute) and n.attr == "append"
+               for n in ast.walk(fn)):
+            merge_appends(fn)
         fn = propagate_aliases(fn)
         fn = _lift(fn)
         ast.fix_missing_locations(fn)
@@ -820,4 +823,113 @@ def expand_conditional_lists(fn):
                     h.body = block(h.body)
         return stmts
     fn.body = block(fn.body)
+    return cnt[0]
+
+
+def merge_appends(fn):
+    """`L = []; ...; L.append(a); ...; L.append(b); USE(L)` (one block,
+    nothing else touching L in between, a / b names bound once or constants)
+    is `L = [a, b]; USE(L)`; when USE is the unpacking `x, y = L` and L is
+    read nowhere else the elements are bound directly (`x = a; y = b`).
+    Returns the number of lists merged; fn is modified in place."""
+    cnt = [0]
+    stores = {}
+    for n in ast.walk(fn):
+        if isinstance(n, ast.Name) and isinstance(n.ctx, (ast.Store, ast.Del)):
+            stores[n.id] = stores.get(n.id, 0) + 1
+    for a in fn.args.args + fn.args.kwonlyargs:
+        stores[a.arg] = stores.get(a.arg, 0) + 1
+
+    def mentions(s, L):
+        return any(isinstance(n, ast.Name) and n.id == L for n in ast.walk(s))
+
+    def simple(e):
+        if isinstance(e, ast.Constant):
+            return True
+        if isinstance(e, ast.Name):
+            return stores.get(e.id, 0) <= 1
+        return False
+
+    def try_at(stmts, i):
+        s0 = stmts[i]
+        if not (isinstance(s0, ast.Assign) and len(s0.targets) == 1 and
+                isinstance(s0.targets[0], ast.Name) and isinstance(
+                    s0.value, ast.List) and all(simple(e)
+                                                for e in s0.value.elts)):
+            return False
+        L = s0.targets[0].id
+        if stores.get(L, 0) != 1:
+            return False
+        elts = list(s0.value.elts)
+        drop = [i]
+        j = i + 1
+        while j < len(stmts):
+            s = stmts[j]
+            if isinstance(s, ast.Expr) and isinstance(
+                    s.value, ast.Call) and isinstance(
+                        s.value.func, ast.Attribute) and \
+                    s.value.func.attr == "append" and isinstance(
+                        s.value.func.value, ast.Name) and \
+                    s.value.func.value.id == L and len(
+                        s.value.args) == 1 and not s.value.keywords and \
+                    simple(s.value.args[0]):
+                elts.append(s.value.args[0])
+                drop.append(j)
+            elif mentions(s, L):
+                break
+            j += 1
+        if len(drop) < 2:
+            return False
+        use = stmts[j] if j < len(stmts) else None
+        total = sum(1 for n in ast.walk(fn) if isinstance(n, ast.Name)
+                    and n.id == L)
+        new = None
+        if use is not None and isinstance(use, ast.Assign) and len(
+                use.targets) == 1 and isinstance(
+                    use.targets[0], (ast.Tuple, ast.List)) and isinstance(
+                        use.value, ast.Name) and use.value.id == L and len(
+                            use.targets[0].elts) == len(elts) and all(
+                                isinstance(t, ast.Name)
+                                for t in use.targets[0].elts) and \
+                total == len(drop) + 1:
+            new = [ast.copy_location(ast.Assign([t], acopy(e)), use)
+                   for t, e in zip(use.targets[0].elts, elts)]
+            drop.append(j)
+        else:
+            new = [ast.copy_location(ast.Assign(
+                [ast.Name(L, ast.Store())],
+                ast.List([acopy(e) for e in elts], ast.Load())), s0)]
+        for x in new:
+            ast.fix_missing_locations(x)
+        at = min(j, len(stmts))
+        out = []
+        for k, s in enumerate(stmts):
+            if k == at:
+                out += new
+            if k not in drop:
+                out.append(s)
+        if at >= len(stmts):
+            out += new
+        stmts[:] = out
+        cnt[0] += 1
+        return True
+
+    def block(stmts):
+        i = 0
+        while i < len(stmts):
+            if not try_at(stmts, i):
+                i += 1
+        for s in stmts:
+            if isinstance(s, (ast.FunctionDef, ast.AsyncFunctionDef,
+                              ast.ClassDef)):
+                continue
+            for fld in ("body", "orelse", "finalbody"):
+                sub = getattr(s, fld, None)
+                if isinstance(sub, list) and sub and isinstance(
+                        sub[0], ast.stmt):
+                    block(sub)
+            if isinstance(s, ast.Try):
+                for h in s.handlers:
+                    block(h.body)
+    block(fn.body)
     return cnt[0]
